@@ -8,7 +8,9 @@ P=/verif/seeded/$ID/patch.diff
 cd /verif
 [ -z "$(git -C /repo status --porcelain)" ] || { echo "/repo not clean, refusing"; exit 2; }
 git -C /repo apply "$P" || exit 2
-trap 'git -C /repo checkout -- . ; git -C /repo clean -fdq' EXIT
+# evidence/ must describe clean-tree runs: keep it aside while the patched tree is checked
+rm -rf /var/tmp/evidence.keep; cp -r /verif/evidence /var/tmp/evidence.keep
+trap 'git -C /repo checkout -- . ; git -C /repo clean -fdq; rm -rf /verif/evidence; mv /var/tmp/evidence.keep /verif/evidence' EXIT
 ok=0
 for c in $CHECKS; do
   timeout 3000 bin/check "$c" > "/verif/seeded/$ID/check.$c.log" 2>&1; rc=$?
